@@ -67,6 +67,9 @@ var heapTargets = []target{
 	{"simple_tree_spreader.go", "colorizeSpreaderSimple.spreadBranch"},
 	{"simple_tree_spreader.go", "colorizeSpreaderSimple.colorize"},
 	{"simple_tree_spreader.go", "colorizeSpreaderSimple.summary"},
+	{"node.go", "newNode"},
+	{"tree_handler_programmably.go", "NewRoot"},
+	{"tree_handler_programmably.go", "Node.Add"},
 }
 
 // structs that live in the heap (handled through pointers) and value structs generated here; other value structs
@@ -92,6 +95,8 @@ type hfn struct {
 	writesFS bool // changes the file system (os.MkdirAll, os.Create)
 	usesCB   bool // calls a user callback (whose state is threaded)
 	writesW  bool // writes to the caller's io.Writer
+	allocs   bool // allocates a node (`&Node{…}`): the allocator `al_` (the next unused pointer) is threaded
+	usesIdx  bool // uses the package-level counter idxCounter (threaded as `idx_`)
 	mutRecv  bool // changes a counter field of its receiver: the receiver is returned
 	usesStk  bool // a method of *stack: reads the stack of open nodes (the world component stk_, root first)
 	writesStk bool // pushes or pops
@@ -382,6 +387,12 @@ func (f *hfn) outs() []string {
 	if f.mutRecv {
 		o = append(o, id(f.recvName))
 	}
+	if f.allocs {
+		o = append(o, "al_")
+	}
+	if f.usesIdx {
+		o = append(o, "idx_")
+	}
 	return o
 }
 func (f *hfn) ins() []string {
@@ -398,6 +409,12 @@ func (f *hfn) ins() []string {
 	if f.usesStk || f.writesStk {
 		i = append(i, "stk_")
 	}
+	if f.allocs {
+		i = append(i, "al_")
+	}
+	if f.usesIdx {
+		i = append(i, "idx_")
+	}
 	return i
 }
 
@@ -406,12 +423,25 @@ type callee struct {
 	fn      *hfn
 	ext     *ext
 	cb      string // a call of the callback parameter of this name
+	pkgCtr  string // idxCounter.<op>()
 	outs    []string
 	results []string // Go result types; "~…" = not represented
 	fuel    bool
 }
 
+func pkgCounterOp(call *ast.CallExpr) string {
+	if se, ok := call.Fun.(*ast.SelectorExpr); ok {
+		if idt, ok := se.X.(*ast.Ident); ok && idt.Name == "idxCounter" {
+			return se.Sel.Name
+		}
+	}
+	return ""
+}
+
 func (t *htr) resolve(sc *hscope, call *ast.CallExpr) *callee {
+	if op := pkgCounterOp(call); op == "next" {
+		return &callee{pkgCtr: op, outs: []string{"idx_"}, results: []string{"uint"}}
+	}
 	if idt, ok := call.Fun.(*ast.Ident); ok && sc.vars[idt.Name] == callbackType {
 		return &callee{cb: idt.Name, outs: []string{"cbs_"}, results: []string{"error"}}
 	}
@@ -435,7 +465,9 @@ func (t *htr) resolve(sc *hscope, call *ast.CallExpr) *callee {
 	return nil
 }
 
-func (c *callee) effectful() bool { return len(c.outs) > 0 || c.fuel || c.ext != nil || c.cb != "" }
+func (c *callee) effectful() bool {
+	return len(c.outs) > 0 || c.fuel || c.ext != nil || c.cb != "" || c.pkgCtr != ""
+}
 
 func (sc *hscope) clone() *hscope {
 	m := map[string]string{}
@@ -574,6 +606,9 @@ func (t *htr) typeOf(sc *hscope, e ast.Expr) string {
 		if _, op := t.counterOp(sc, x); op == "current" || op == "next" {
 			return "uint"
 		}
+		if pkgCounterOp(x) == "next" {
+			return "uint"
+		}
 		if se, ok := x.Fun.(*ast.SelectorExpr); ok && se.Sel.Name == "Sprint" && strings.HasSuffix(t.typeOf(sc, se.X), "color.Color") {
 			return "string"
 		}
@@ -638,6 +673,21 @@ func (t *htr) analyse() {
 				return true
 			})
 		}
+		ast.Inspect(f.decl.Body, func(n ast.Node) bool {
+			switch x := n.(type) {
+			case *ast.UnaryExpr:
+				if cl, ok := x.X.(*ast.CompositeLit); ok && x.Op == token.AND {
+					if _, ok := heapStructs[typeStr(cl.Type)]; ok {
+						f.allocs, f.mutates = true, true
+					}
+				}
+			case *ast.CallExpr:
+				if pkgCounterOp(x) != "" {
+					f.usesIdx = true
+				}
+			}
+			return true
+		})
 		if f.recvType == "*stack" {
 			f.usesStk = true
 			ast.Inspect(f.decl.Body, func(n ast.Node) bool {
@@ -742,6 +792,12 @@ func (t *htr) analyse() {
 				}
 				if g.mutRecv && !f.mutRecv && g.recvType == f.recvType {
 					f.mutRecv, changed = true, true
+				}
+				if g.allocs && !f.allocs {
+					f.allocs, changed = true, true
+				}
+				if g.usesIdx && !f.usesIdx {
+					f.usesIdx, changed = true, true
 				}
 			}
 		}
@@ -971,6 +1027,9 @@ func (t *htr) ex(sc *hscope, e ast.Expr, want string) string {
 
 // call: the Lean application for a call of a translated function or an external (fuel and world components first)
 func (t *htr) call(sc *hscope, x *ast.CallExpr, c *callee) string {
+	if c.pkgCtr != "" {
+		return "(Go.counterNext idx_)"
+	}
 	if c.cb != "" {
 		// callback(&WalkerNode{origin: p}): the callback is handed the node
 		if len(x.Args) == 1 {
@@ -1081,6 +1140,27 @@ func (t *htr) fnValue(f *hfn, vals []string) string {
 	return v
 }
 
+// zeroLean: the zero value of a field of a heap cell
+func zeroLean(goType string) string {
+	switch goType {
+	case "string":
+		return "([] : Bytes)"
+	case "uint", "int":
+		return "(0 : Int)"
+	case "bool":
+		return "false"
+	case "branch":
+		return "({ value := [], path := [] } : Src.branch)"
+	}
+	if strings.HasPrefix(goType, "[]") {
+		return "[]"
+	}
+	if strings.HasPrefix(goType, "*") {
+		return "Go.nilPtr"
+	}
+	return "untranslatable"
+}
+
 func tupleOf(names []string) string {
 	switch len(names) {
 	case 0:
@@ -1186,6 +1266,39 @@ func (t *htr) seq(sc *hscope, stmts []ast.Stmt, c *hcont, ind string) string {
 			}
 			if len(f.results) == 1 && f.results[0] == "*stack" {
 				return ind + c.retRaw(t.fnValue(f, nil)) + "\n"
+			}
+			// `return &Node{…}`: a new cell at the allocator's pointer
+			if u, ok := x.Results[0].(*ast.UnaryExpr); ok && u.Op == token.AND {
+				if cl, ok := u.X.(*ast.CompositeLit); ok {
+					if _, ok := heapStructs[typeStr(cl.Type)]; ok {
+						vals := map[string]string{}
+						for _, el := range cl.Elts {
+							kv, ok := el.(*ast.KeyValueExpr)
+							if !ok {
+								return ind + t.fail(x.Pos(), "positional composite literal") + "\n"
+							}
+							k := kv.Key.(*ast.Ident).Name
+							vals[k] = t.ex(sc, kv.Value, t.fieldType(typeStr(cl.Type), k))
+						}
+						var fs []string
+						for _, fl := range t.structs[typeStr(cl.Type)] {
+							v, ok := vals[fl[0]]
+							if !ok {
+								v = zeroLean(fl[1])
+							}
+							fs = append(fs, id(fl[0])+" := "+v)
+						}
+						return ind + "let p_ := al_\n" + ind + "let h_ := Heap.set h_ p_ { " + strings.Join(fs, ", ") + " }\n" +
+							ind + "let al_ := al_ + 1\n" + ind + c.retRaw(t.fnValue(f, []string{"p_"})) + "\n"
+					}
+				}
+			}
+			// effects inside the returned expression (e.g. an argument `idxCounter.next()`)
+			n := 0
+			if pre, e2 := t.hoist(sc, x.Results[0], c, ind, &n); pre != "" {
+				y := *x
+				y.Results = []ast.Expr{e2}
+				return pre + t.seq(sc, []ast.Stmt{&y}, c, ind)
 			}
 		}
 		for i, r := range x.Results {
@@ -1384,6 +1497,19 @@ func (t *htr) hoist(sc *hscope, e ast.Expr, c *hcont, ind string, n *int) (strin
 		p2, b := t.hoist(sc, x.Y, c, ind, n)
 		return p1 + p2, &ast.BinaryExpr{X: a, Op: x.Op, Y: b}
 	case *ast.CallExpr:
+		// the arguments first (Go evaluates them before the call), then the call itself if it has an effect
+		pre := ""
+		y := *x
+		y.Args = nil
+		for _, a := range x.Args {
+			p1, a1 := t.hoist(sc, a, c, ind, n)
+			pre += p1
+			y.Args = append(y.Args, a1)
+		}
+		if pre != "" {
+			p2, e2 := t.hoist(sc, &y, c, ind, n)
+			return pre + p2, e2
+		}
 		if g := t.resolve(sc, x); g != nil && (len(g.outs) > 0 || g.fuel) {
 			*n++
 			tmp := fmt.Sprintf("t%d_", *n)
@@ -1421,6 +1547,21 @@ func (t *htr) assignH(sc *hscope, x *ast.AssignStmt, c *hcont, ind string) strin
 	if len(x.Rhs) == 1 {
 		if call, ok := x.Rhs[0].(*ast.CallExpr); ok {
 			if g := t.resolve(sc, call); g != nil && g.effectful() {
+				// effects among the arguments first
+				pre := ""
+				n := 0
+				y := *call
+				y.Args = nil
+				for _, a := range call.Args {
+					p1, a1 := t.hoist(sc, a, c, ind, &n)
+					pre += p1
+					y.Args = append(y.Args, a1)
+				}
+				if pre != "" {
+					z := *x
+					z.Rhs = []ast.Expr{&y}
+					return pre + t.assignH(sc, &z, c, ind)
+				}
 				var lhs []string
 				for i, l := range x.Lhs {
 					idt, ok := l.(*ast.Ident)
@@ -1640,6 +1781,10 @@ func (t *htr) function(f *hfn) string {
 			rts = append(rts, "(List Go.Ptr)")
 		case "cbs_":
 			rts = append(rts, "σ")
+		case "al_":
+			rts = append(rts, "Go.Ptr")
+		case "idx_":
+			rts = append(rts, "Int")
 		default:
 			rts = append(rts, t.leanType(f.recvType)) // the receiver, returned with its counters
 		}
@@ -1674,6 +1819,12 @@ func (t *htr) function(f *hfn) string {
 	}
 	if f.usesStk || f.writesStk {
 		fsig += " (stk_ : List Go.Ptr)"
+	}
+	if f.allocs {
+		fsig += " (al_ : Go.Ptr)"
+	}
+	if f.usesIdx {
+		fsig += " (idx_ : Int)"
 	}
 	if f.rec {
 		// a recursive function: structural recursion on the fuel
